@@ -36,11 +36,9 @@ def gen_behaviours(ctx, design):
     if not hs:
         raise Broken("design run printed no operation sequences")
     keys = {json.dumps(h, sort_keys=True): h for h in hs}
-    prefixes = set()
-    for h in hs:
-        for k in range(len(h)):
-            prefixes.add(json.dumps(h[:k], sort_keys=True))
-    out = [{"align": 2, "unit": 1, "steps": keys[k]} for k in sorted(keys) if k not in prefixes and keys[k]]
+    # "cover": every proper prefix of these sequences is itself (the end of) a sequence of the batch or a
+    # prefix of one, so only the last operation (and the final release) of each needs a verdict
+    out = [{"align": 2, "unit": 1, "steps": keys[k], "cover": 1} for k in sorted(keys) if keys[k]]
     ctx.cov["transitions_covered_by_replay"] = len(keys)
     # random deeper sequences (larger requests, more alignments, writes through slices)
     nsim = 1500 if ctx.tier == "thorough" else 60
@@ -119,6 +117,8 @@ def run(ctx, which):
                     ev = clamp(ev)
                     if ev["e"] == "init":
                         ev["unit"] = o["unit"]
+                    if cases[bi].get("cover") and ei < len(o["ev"]) - 2:
+                        ev["j"] = 0
                     f.write(json.dumps(ev) + "\n")
                     ln += 1
                     linemap[(path, ln)] = (bi, ei)
